@@ -93,6 +93,7 @@ func consumeUnixFSData(remaining []byte, ma ipld.MapAssembler) error {
 					return protowire.ParseError(n)
 				}
 				remaining = remaining[n:]
+				packedBlockSizes = true
 				// count the number of varints in the array by looking at most
 				// significant bit not set
 				var blockSizeCount int64
